@@ -538,6 +538,46 @@ func checkC11(c *Ctx, r *Report) {
 		}
 	}
 
+	// the tables are keyed by what the caps are about: ips by the IP address of the remote multiaddr, asns by its ASN
+	if f := r7.need("(*" + relP + ".constraints).Reserve"); f != nil {
+		cT := relP + ".constraints"
+		isIPString := func(v ssa.Value) bool {
+			ci := isResultOfCall(v, 0, "(net.IP).String")
+			if ci == nil {
+				return false
+			}
+			return derivesFrom(callArgs(ci)[0], func(x ssa.Value) bool {
+				tc := isResultOfCall(x, 0, "github.com/multiformats/go-multiaddr/net.ToIP")
+				return tc != nil && isParamVar(c, callArgs(tc)[0], "a")
+			})
+		}
+		nKeys := 0
+		okKeys := true
+		bad := ""
+		allInstrs(f, func(in ssa.Instruction) {
+			var key ssa.Value
+			switch x := in.(type) {
+			case *ssa.Lookup:
+				if isLoadOfField(cT + ".ips")(strip2(x.X)) {
+					key = x.Index
+				}
+			case *ssa.MapUpdate:
+				if isLoadOfField(cT + ".ips")(strip2(x.Map)) {
+					key = x.Key
+				}
+			}
+			if key == nil {
+				return
+			}
+			nKeys++
+			if !isIPString(strip(key)) {
+				okKeys = false
+				bad = describeVal(key)
+			}
+		})
+		r7.Check(nKeys >= 2 && okKeys, "constraints.Reserve: the per-IP table is keyed by ToIP(a).String()", f.Pos(), nKeys, "", "peers sharing an IP address but differing in port or transport land in different buckets: the per-IP cap is never reached", bad)
+	}
+
 	// ---- R8 ---------------------------------------------------------------
 	r8 := r.Rule("C11-R8", "E1", 3, "client Reserve: voucher accepted only past ConsumeEnvelope(RecordDomain), signer == voucher.Relay, self == voucher.Peer")
 	if f := r8.need("p2p/protocol/circuitv2/client.Reserve"); f != nil {
